@@ -145,4 +145,5 @@ func main() {
 	writeIfChanged(filepath.Join(out, "Consts.lean"), c.genConsts())
 	writeIfChanged(filepath.Join(out, "Funcs.lean"), c.genFuncs())
 	writeIfChanged(filepath.Join(out, "Facts.lean"), c.genFacts())
+	writeIfChanged(filepath.Join(out, "CodecFacts.lean"), c.genCodecFacts())
 }
